@@ -5,6 +5,8 @@ sys.path.insert(0, os.path.join(os.path.dirname(os.path.abspath(__file__)), 'vx'
 import registry
 
 TEXT = {
+ 'C17': ('Deductive proof (Verus) on the real find_trailers (result == an independent recursive frame walk of the buffer), trailers_frame_len, and the client response-decoding loop of GrpcWebCall::poll_frame: for ANY chunking (ghost history of the inner body) the bytes handed out are exactly the complete message frames buffered, nothing is lost or duplicated (conservation: received == consumed trailers frames ++ data ++ still buffered), the trailers frame is decoded only when complete, a clean end / the trailers are produced only after the inner body ended with nothing left over (so truncation is an error), and the inner body is never polled after its end.',
+         'Partial: the header-block parser decode_trailers_frame is outside reach (assumed); poll_decode binary path assumed. Two genuine defects found here were repaired by fix: commits.'),
  'C14': ('Deductive proof (Verus) of the real Reconnect::{poll_ready,call} and ResponseFuture::poll as a state machine, inductive over ANY history of connector/connection outcomes (loop invariant, no bound): Reconnect implements tower\'s ready/call contract (call never reaches its panic), a connect failure is returned at once only by an eager never-connected channel and otherwise parked with the state reset to Idle (so the next poll_ready starts a fresh connect), a parked error is handed to exactly one call and cleared.',
          'Partial: Buffer worker, hyper, ConnectError->UNAVAILABLE mapping and liveness are outside reach. Assumed: tower Service contract (call only after Ready(Ok)), Future one-poll contract.'),
  'C09': ('Deductive proof (Verus) on the real try_parse_grpc_timeout (exactly the spec-conformant values - 1..8 ASCII digits and a unit - are parsed, to exactly the duration they denote; everything else is an error, never a panic or overflow), duration_to_grpc_timeout (the written value is conformant, never longer than requested, loses less than one unit), GrpcTimeout::call (deadline == the shorter of header and configured timeout, malformed header ignored) and ResponseFuture::poll (a finished call wins; timeout only when the timer fired).',
